@@ -652,6 +652,13 @@ FIXED = [
      'csubj': {'kind': 'template', 'tpl': {'pre': 'http://ex.org/C/', 'parts': [['id', '']]}, 'value': 'http://ex.org/C/{id}', 'termtype': 'iri'},
      'psubj': {'kind': 'template', 'tpl': {'pre': 'http://ex.org/P/', 'parts': [['id', '']]}, 'value': 'http://ex.org/P/{id}', 'termtype': 'iri'},
      'pred': 'http://ex.org/p/a', 'conds': [['parent_k', 'k']], 'graphs': [], 'fmt': 'N-TRIPLES', 'cpom': None, 'ppom': None, 'parent_first': False},
+    # a hierarchy in ONE source (`boss = id`, not an identity join): the root has a NULL in the child join column, so it yields no link
+    # as a child, but it IS the parent of the others (the parent side must be read on its own, not derived from the child rows)
+    {'kind': 'csv_same', 'ccols': ['id', 'boss'], 'pcols': ['id', 'boss'],
+     'crows': [{'id': '1', 'boss': ''}, {'id': '2', 'boss': '1'}, {'id': '3', 'boss': '1'}, {'id': '4', 'boss': '3'}],
+     'csubj': {'kind': 'template', 'tpl': {'pre': 'http://ex.org/E/', 'parts': [['id', '']]}, 'value': 'http://ex.org/E/{id}', 'termtype': 'iri'},
+     'psubj': {'kind': 'template', 'tpl': {'pre': 'http://ex.org/E/', 'parts': [['id', '']]}, 'value': 'http://ex.org/E/{id}', 'termtype': 'iri'},
+     'pred': 'http://ex.org/p/boss', 'conds': [['boss', 'id']], 'graphs': [], 'fmt': 'N-TRIPLES', 'cpom': None, 'ppom': None, 'parent_first': False},
 ]
 for _c in FIXED:
     _c.setdefault('prows', _c['crows'])
